@@ -1,5 +1,6 @@
 import Splipy.Model.Basis
 import Splipy.Model.Tensor
+import Splipy.Model.LinAlg
 
 /-!
 # Executable model of the remaining `BSplineBasis` methods (`splipy/basis.py`)
@@ -74,25 +75,30 @@ def knotSpans (b : Basis K) (tol : K) (ghost : Bool) : Array K :=
 def insertAt (a : Array K) (mu : ℕ) (x : K) : Array K :=
   (a.extract 0 mu).push x ++ a.extract mu a.size
 
-/-- `insert_knot(new_knot)`: returns the new basis and the `(n+1) × n` matrix `C`.
-    `IndexError` where the Python code indexes outside the knot array. -/
-def insertKnot [FloorRing K] (b : Basis K) (x0 : K) : PyM (Basis K × Mat K) :=
+/-- First `if`/`elif` of `insert_knot`: the value really inserted (periodic wrap) or `ValueError`. -/
+def insertWrap [FloorRing K] (b : Basis K) (x0 : K) : PyM K :=
   let start := b.start
   let stop := b.stop
-  let xw : PyM K :=
-    if b.periodic ≥ 0 then
-      if x0 < start ∨ x0 > stop then
-        -- collapsed domain (end == start, only reachable after a faulty periodic insertion): the float
-        -- `% 0.0` is nan, bisect_right(knots, nan) = len(knots), the middle loop reads knots[len]
-        if stop - start = 0 then .error .index
-        else .ok (pmod (x0 - start) (stop - start) + start)
-      else .ok x0
-    else if x0 < start ∨ stop < x0 then .error .value
+  if b.periodic ≥ 0 then
+    if x0 < start ∨ x0 > stop then
+      -- collapsed domain (end == start): the float `% 0.0` is nan, bisect_right(knots, nan) = len(knots),
+      -- the middle loop reads knots[len]
+      if stop - start = 0 then .error .index
+      else .ok (pmod (x0 - start) (stop - start) + start)
     else .ok x0
-  match xw with
-  | .error e => .error e
-  | .ok x =>
-    let mu := b.bisectR x
+  else if x0 < start ∨ stop < x0 then .error .value
+  else .ok x0
+
+/-- `mu = bisect_right(self.knots, new_knot)`; periodic: `mu = min(mu, len(self.knots) - p)`
+    (the end of the domain is not passed). -/
+def insertMu (b : Basis K) (x : K) : ℕ :=
+  if b.periodic ≥ 0 then min (b.bisectR x) (b.knots.size - b.order) else b.bisectR x
+
+/-- The part of `insert_knot` after the cover branch (`x` = the wrapped value): the three loops that fill
+    `C`, `np.insert`, the periodic ghost-knot repair.  `IndexError` where the Python code indexes outside
+    the knot array. -/
+def insertKnotDirect (b : Basis K) (x : K) : PyM (Basis K × Mat K) :=
+    let mu := b.insertMu x
     let n := b.numFunctions
     let p := b.order
     let size := b.knots.size
@@ -136,6 +142,59 @@ def insertKnot [FloorRing K] (b : Basis K) (x0 : K) : PyM (Basis K × Mat K) :=
           else knots1
         else knots1
       .ok ({ b with knots := knots2 }, C3)
+
+/-- `insert_knot` without the cover branch: wrap, then the direct algorithm.  This is what the recursive
+    calls `cover.insert_knot(new_knot)` execute (a cover has at least `p+k` functions). -/
+def insertKnotPlain [FloorRing K] (b : Basis K) (x0 : K) : PyM (Basis K × Mat K) :=
+  match b.insertWrap x0 with
+  | .error e => .error e
+  | .ok x => b.insertKnotDirect x
+
+/-- Knot vector of the `R`-fold cover: `(R-1)·n` more knots, `knots.append(knots[-n] + T)`. -/
+def coverKnots (b : Basis K) (R : ℕ) : Array K :=
+  let n := b.numFunctions
+  let T := b.stop - b.start
+  (List.range ((R - 1) * n)).foldl (fun (a : Array K) _ => a.push (a.getD (a.size - n) 0 + T)) b.knots
+
+/-- `np.tile(np.identity(n), (R, 1))`. -/
+def tileIdentity (n R : ℕ) : Mat K :=
+  Array.ofFn (n := R * n) (fun r => Array.ofFn (n := n) (fun c => if r.val % n = c.val then 1 else 0))
+
+/-- `insert_knot(new_knot)`: returns the new basis and the `(n+1) × n` matrix `C`.
+    A periodic basis with fewer than `p+k` functions is refined through its `R`-fold cover
+    (`R = ⌈(p+k)/n⌉` periods, all `R` images of the knot inserted, coefficients repeated, first `n+1`
+    rows kept); otherwise `insertKnotDirect`.  The constructor call `BSplineBasis(p, knots, periodic)`
+    for the cover is modelled as accepting its argument (it does for every valid basis and
+    non-negative tolerance).  The source-derived theorem `PyBasis_insert_knot_eq` covers everything
+    outside the cover branch; the cover branch is tied to the code by the C04 correspondence run
+    (every `(p,k)`, all sizes `n = p-1-k … p+k-1`). -/
+def insertKnot [FloorRing K] (b : Basis K) (x0 : K) : PyM (Basis K × Mat K) :=
+  match b.insertWrap x0 with
+  | .error e => .error e
+  | .ok x =>
+    let p := b.order
+    let size := b.knots.size
+    let nI : Int := (size : Int) - (p : Int) - (b.periodic + 1)
+    if b.periodic ≥ 0 ∧ nI < (p : Int) + b.periodic then
+      -- `n <= 0`: `R = -(-(p+k) // n)` divides by zero for `n = 0`; negative `n` (no such object can be
+      -- built) ends in `np.identity(n)`: ValueError
+      if nI < 0 then .error .value
+      else if nI = 0 then .error .zeroDiv
+      else
+        let n := b.numFunctions
+        let k := b.periodic.toNat
+        let R := (p + k + n - 1) / n
+        let T := b.stop - b.start
+        let cover0 : Basis K := { b with knots := b.coverKnots R }
+        let step (st : Basis K × Mat K × K) : PyM (Basis K × Mat K × K) :=
+          match st.1.insertKnotPlain st.2.2 with
+          | .error e => .error e
+          | .ok (c', Ck) => .ok (c', Mat.mul Ck st.2.1, st.2.2 + T)
+        match (List.range R).foldlM (fun st _ => step st) (cover0, tileIdentity n R, x) with
+        | .error e => .error e
+        | .ok (cover, C, _) =>
+          .ok ({ b with knots := cover.knots.extract 0 (size + 1) }, C.extract 0 (n + 1))
+    else b.insertKnotDirect x
 
 /-- `raise_order(amount)` (amount ≥ 0 already checked by the caller; `amount = 0` clones). -/
 def raiseOrder (b : Basis K) (tol : K) (amount : ℕ) : PyM (Basis K) :=
